@@ -37,7 +37,6 @@ func c15Guards(c *Ctx) {
 	c15QueriesPure(c)
 }
 
-
 var c15IndexMethods = map[string]bool{
 	"GetUplinkChannel": true, "GetDownlinkChannel": true, "EnableUplinkChannelIndex": true,
 	"DisableUplinkChannelIndex": true, "GetTXPowerOffset": true,
